@@ -302,6 +302,25 @@ def run(ctx):
         ctx.count('random_schedules')
         if ctx.stop_early():
             break
+    # bursts: the descriptors of 6-20 messages (2-3 each) all arrive before the first byte
+    for i in range((40 if quick else 600) // sn + 1):
+        r = random.Random('%s/c20burst/%s' % (ctx.seed, i * sn + si))
+        msgs = []
+        while len(msgs) < r.randint(6, 20):
+            m = build_messages(r, 1)[0]
+            if m['nfd'] >= 2 or r.random() < 0.2:
+                k = len(msgs)
+                m['toks'] = [Tok(k, j) for j in range(m['nfd'])]
+                m['member'] = 'B%d' % k
+                msgs.append(m)
+        sched = [('fd', mi, k) for mi, m in enumerate(msgs) for k in range(m['nfd'])]
+        stream = b''.join(m['raw'] for m in msgs)
+        for pc in simnet.chunks_of(stream, simnet.random_partition(r, len(stream), r.choice([30, 400, 10**6]))):
+            sched.append(('read', pc, None))
+        run_schedule(ctx, msgs, sched, 'server' if i % 2 else 'client', {'kind': 'burst', 'idx': i * sn + si})
+        ctx.count('burst_schedules')
+        ctx.counters['max_descriptors_queued'] = max(ctx.counters.get('max_descriptors_queued', 0),
+                                                     sum(m['nfd'] for m in msgs))
     for i in range((1500 if quick else 20000) // sn):
         sender_case(ctx, ctx.seed, i * sn + si)
     ctx.sample({'messages': [{'sig': 'hh', 'nfd': 2}, {'sig': 's', 'nfd': 0}, {'sig': 'ah', 'nfd': 2}],
